@@ -126,9 +126,17 @@ func (c *core) execFunc() (*Response, error) {
 		}
 		return resp, nil
 	case <-c.ctx.Done():
-		atomic.SwapInt32(&done, 1)
-		ReleaseResponse(resp)
-		return nil, ErrTimeoutOrCancel
+		if atomic.CompareAndSwapInt32(&done, 0, 1) {
+			ReleaseResponse(resp)
+			return nil, ErrTimeoutOrCancel
+		}
+		// The worker has already committed to deliver the result: it is about to write into
+		// resp and to send on errCh, so neither may go back to its pool before it has done so.
+		if err := <-errCh; err != nil {
+			ReleaseResponse(resp)
+			return nil, err
+		}
+		return resp, nil
 	}
 }
 
